@@ -77,3 +77,40 @@ Proof.
   intros h r l rsv r' Hok H G. unfold dec_subs in H. run H.
   tail_many H (item_subs_entry (subs_w (vf_version a))). inj_pret H. cbn [body_leaf]. close_with Hl.
 Qed.
+
+(* ---------------------------------------------------------------- uuid *)
+Lemma item_pairw w bs a r : bytes_ok bs = true -> rd_pairw w bs = Ok (a, r) -> bs = wr_pairw w a ++ r /\ bytes_ok r = true.
+Proof.
+  intros Hok H. unfold rd_pairw in H. run H. inj_pret H. split; [|assumption].
+  unfold wr_pairw. cbn [fst snd]. repeat rewrite <- app_assoc. reflexivity.
+Qed.
+
+Lemma bytes_eqb_eq1 x : forall y, bytes_eqb x y = true -> x = y.
+Proof.
+  induction x as [|a x IH]; intros [|b y] H; cbn [bytes_eqb] in H; try discriminate; [reflexivity|].
+  apply andb_true_iff in H. destruct H as [H1 H2]. apply N.eqb_eq in H1. subst. f_equal. now apply IH.
+Qed.
+
+Lemma lossless_uuid : leaf_lossless dec_uuid.
+Proof.
+  intros h r l rsv r' Hok H G. unfold dec_uuid in H. step H.
+  destruct (bytes_eqb a uuid_tfxd) eqn:E1.
+  { apply bytes_eqb_eq1 in E1. subst a. run H. inj_pret H. cbn [body_leaf].
+    eexists; split; [reflexivity|]; split; [|assumption].
+    rewrite vf_join_split by assumption. repeat rewrite <- app_assoc. reflexivity. }
+  destruct (bytes_eqb a uuid_tfrf) eqn:E2.
+  { apply bytes_eqb_eq1 in E2. subst a. run H. tail_many H (item_pairw (uuid_w (vf_version a))). inj_pret H. cbn [body_leaf].
+    rewrite N.ltb_irrefl, firstn_lenN.
+    eexists; split; [reflexivity|]; split; [|assumption].
+    rewrite vf_join_split by assumption. repeat rewrite <- app_assoc. reflexivity. }
+  destruct (bytes_eqb a uuid_piff) eqn:E3.
+  { apply bytes_eqb_eq1 in E3. subst a. destruct (h_size h <? 16); [discriminate H|].
+    apply pbind_ok in H. destruct H as ([l0 rsv0] & r1 & E & H). cbn [fst] in H.
+    destruct l0; try discriminate H. inj_pret H.
+    destruct (lossless_senc _ _ _ _ _ Hok0 E G) as (b & Hb & -> & Hok1).
+    cbn [body_leaf] in *. destruct (negb notParsed && has flags 2 && (0 <? count)); [discriminate Hb|]. injection Hb as <-.
+    eexists; split; [reflexivity|]; split; [|assumption]. repeat rewrite <- app_assoc. reflexivity. }
+  destruct (h_size h <? 24); [discriminate H|]. run H. inj_pret H. cbn [body_leaf].
+  eexists; split; [reflexivity|]; split; [|assumption]. repeat rewrite <- app_assoc. reflexivity.
+Qed.
+
